@@ -20,11 +20,13 @@ EXTENDS CfgSyntax
 Trace == ndJsonDeserialize("trace.ndjson")
 
 NoExp == [class |-> "any", tree |-> <<>>, devs |-> {}]
-ExpOf(in) == IF in.layer = "s" THEN Expected(in.doc) ELSE NoExp
+ExpOf(in) == IF in.layer = "s" THEN Expected(in.doc)
+             ELSE IF in.layer = "i" THEN FileExpected(in.scen, Devs) ELSE NoExp
 
 (* the row was not altered on its way through the harness                  *)
 SameInput(in) ==
-  in.layer \in {"s", "m"} => in.pieces = SourcePieces(in.doc, ToSet(in.style), in.mut)
+  /\ in.layer \in {"s", "m"} => in.pieces = SourcePieces(in.doc, ToSet(in.style), in.mut)
+  /\ in.layer = "i" => in.files = FilePieces(in.scen)
 
 Conforms(in, out, ex) ==
   /\ SameInput(in)
